@@ -141,7 +141,8 @@ def c_oret(r):
 
 
 def c_ostep(o):
-    return '(mkOStep %s %s %s %s)' % (c_bool(o['raised']), c_oret(o['ret']), c_cstate(o['state']), c_bool(o['same']))
+    return '(mkOStep %s %s %s %s %s)' % (c_bool(o['raised']), c_oret(o['ret']), c_cstate(o['state']), c_bool(o['same']),
+                                         c_bool(o['others']))
 
 
 class Sim:
@@ -162,6 +163,13 @@ class Sim:
 
     def all_ids(self):
         return {i for l in self.reach_ids() for i in l}
+
+    def snapshots(self):
+        """deep snapshot per builder: heads and, for every reachable node object, its name, params, uid
+        value and parent objects"""
+        return [([id(h) for h in b.heads],
+                 [(id(n), repr(n.content.get('name')), repr(n.content.get('params')), n.uid,
+                   tuple(id(p) for p in n.nodes_from)) for n in reach(b.heads)]) for b in self.objs]
 
     def do(self, c):
         k = c[0]
@@ -221,6 +229,8 @@ class Sim:
         obs = []
         for c in calls:
             before = self.reach_ids()
+            snap = self.snapshots()
+            target = c[1] if c[0] not in ('Merge', 'ToNodes', 'Build') else None
             raised = False
             try:
                 ret = self.do(c)
@@ -229,7 +239,10 @@ class Sim:
                 ret = ['ORNone']
                 self.last_exception = '%s: %s' % (type(ex).__name__, ex)
             after = self.reach_ids()
-            obs.append({'raised': raised, 'ret': ret, 'state': self.state(), 'same': after[:len(before)] == before})
+            snap2 = self.snapshots()
+            others = all(snap2[i] == snap[i] for i in range(len(snap)) if i != target)
+            obs.append({'raised': raised, 'ret': ret, 'state': self.state(), 'same': after[:len(before)] == before,
+                        'others': others})
         return obs
 
 
@@ -307,18 +320,21 @@ def eval_builder(ctx, group, items, canary=False):
     if canary and meta:
         # canary 1: pretend that build() returned a graph sharing nodes with the builder
         # canary 2: pretend that the skip connection closed a cycle
-        k, calls = 1, [['AddSequence', 0, ['a', 'b', 'c'], 0], ['Build', 0]]
-        assert k == 1
-        obs = Sim(k).run(calls)
-        assert obs[1]['ret'][0] == 'ORGraph'
-        obs[1]['ret'][6] = False
-        cases.append(c_builder_case(k, calls, obs))
-        calls = [['AddSequence', 0, ['a', 'b', 'c'], 0], ['AddSkip', 0, 0, 0, 0, 2]]
-        obs = Sim(k).run(calls)
-        obs[1]['state'][0][2][3] = [0]      # the deepest node gets the head as parent
-        cases.append(c_builder_case(k, calls, obs))
-        n_can = 2
-        ctx.canaries += 2
+        # (built from real observations; skipped when the implementation is too broken to give them)
+        try:
+            k, calls = 1, [['AddSequence', 0, ['a', 'b', 'c'], 0], ['Build', 0]]
+            obs = Sim(k).run(calls)
+            obs[1]['ret'][6] = False
+            c1 = c_builder_case(k, calls, obs)
+            calls = [['AddSequence', 0, ['a', 'b', 'c'], 0], ['AddSkip', 0, 0, 0, 0, 2]]
+            obs = Sim(k).run(calls)
+            obs[1]['state'][0][2][3] = [0]      # the deepest node gets the head as parent
+            c2 = c_builder_case(k, calls, obs)
+            cases += [c1, c2]
+            n_can = 2
+            ctx.canaries += 2
+        except Exception:
+            n_can = 0
     res = ctx.coq_cases(group, REQ_B, FN_B, cases, 3, shard=250)
     if n_can:
         for ag, ho, _ in res[-n_can:]:
@@ -572,13 +588,15 @@ def eval_factory(ctx, group, cases_in, canary=False):
         meta.append((case, o))
     n_can = 0
     if canary:
+        # hand-written observations of random_graph(max_depth=3, arity 2..2, 2 node types)
         case = {'md': 3, 'mn': 2, 'mx': 2, 'arg': None, 'nt': 2, 'v': ['VAll'], 'seed': 5}
-        o = observe_factory(case)
-        assert o['result'] is not None and o['result'][1]
-        o['depth'] = 4                                  # deeper than max_depth
+        tree = [0, [[1, []], [0, [[1, []], [1, []]]]]]
+        good = {'attempts': [tree], 'choices': [], 'explained': True, 'result': tree, 'accepted': True, 'depth': 3,
+                'nodes': [0, 1, 0, 1, 1]}
+        o = dict(good, depth=4)                          # deeper than max_depth
         cases.append(c_factory_case(case, o))
-        o = observe_factory(case)
-        o['result'][1].append([0, []])                  # one parent too many at the root
+        bad = [0, [[1, []], [0, [[1, []], [1, []]]], [0, []]]]   # one parent too many at the root
+        o = dict(good, attempts=[bad], result=bad, nodes=[0, 1, 0, 1, 1, 0])
         cases.append(c_factory_case(case, o))
         n_can = 2
         ctx.canaries += 2
@@ -677,11 +695,11 @@ def eval_population(ctx, group, cases_in, canary=False):
         meta.append((case, o))
     n_can = 0
     if canary:
+        # hand-written observation: a duplicate inside the returned population
         case = {'md': 3, 'mn': 1, 'mx': 2, 'nt': 3, 'v': ['VAll'], 'seed': 3, 'pop_size': 3}
-        o = observe_population(case)
-        assert o['result'] and len(o['result']) == 3
-        o['result'][2] = o['result'][0]               # a duplicate inside the population
-        o['pairs'][1] = True
+        t0, t1 = [0, [[1, []]]], [2, []]
+        o = {'generated': [t0, t1, t0], 'raised': False, 'result': [t0, t1, t0], 'accepted': [True] * 3,
+             'pairs': [False, True, False], 'depths': [2, 1, 2]}
         cases.append(c_population_case(case, o))
         n_can = 1
         ctx.canaries += 1
